@@ -252,6 +252,20 @@ def run(ctx):
         ctx.ob("C15.d", GETCAPS, argv_ok, "_update_capabilities receives the first response *after* the additional page was merged into it",
                func=GETCAPS, file=g.module.rel, node=n, detail={"argument": show(arg) if arg else None},
                fail="_update_capabilities does not see the merged response (update before merge, or the wrong response object)")
+    # ---- C15.e the result of one response is its own: the dict the parser fills and merge() later extends is not also kept - the object
+    # itself - in state that outlives the response (a class-level cache, a module-level registry); nor is class-level state mutated through
+    # an instance.  Otherwise what one fetch merges shows up in the next one's first page.
+    from ..shared import check as shared_check, escaping_instance_state
+    from ..model import norm as _norm
+    capcls = prog.cls("msmart.device.AC.command.CapabilitiesResponse")
+    shared_check(ctx, "C15.e", [capcls], "the capabilities response")
+    esc = escaping_instance_state(prog, [capcls])
+    ctx.ob("C15.e", capcls.qual, not esc, "the capability dict of a response is not stored (uncopied) in class-level or module-level state", func=capcls.qual,
+           file=capcls.module.rel, construct="escaping per-response state") if not esc else None
+    for _c, attr_, node_, q_ in esc:
+        ctx.ob("C15.e", q_, False, "", func=q_, file=capcls.module.rel, node=node_, construct=_norm(node_)[:80],
+               fail=f"self.{attr_} - the dict this response keeps filling (merge() extends it) - is put uncopied into state shared by all responses: "
+                    "a later merge changes what other responses / later fetches report")
     ctx.require_min("record_loops", 1)
     ctx.require_min("back_edges", 2)
     ctx.require_min("reads", 2)
